@@ -142,9 +142,16 @@ func Verif_C06_Dispatch() {
 	pp := "example.com/m/p"
 	vSet("ga", pp, "A", vActRender)
 	vSet("ga", pp, "B", vActRender)
-	vSet("gb", pp, "A", vActRender)
+	// gb either renders as it goes, or collects and renders only in its deferred callback
+	onlyDefer := verifsym.Bool()
+	if onlyDefer {
+		vSet("gb", pp, "A", vActNothing)
+		vSet("gb", pp, "alias_C", vActNothing)
+	} else {
+		vSet("gb", pp, "A", vActRender)
+		vSet("gb", pp, "alias_C", vActRender)
+	}
 	vSet("gb", pp, "B", vActDeferOK)
-	vSet("gb", pp, "alias_C", vActRender)
 	err := w.exec(false, true, vLevelTags("ga", lg), &vGenA{}, &vGenB{})
 	verifsym.Assert(err == nil, "Execute fails")
 
@@ -227,7 +234,7 @@ func Verif_C06_Dispatch() {
 
 // Verif_C08_History: three consecutive runs over a module with packages p and
 // q. Initial gengo.sum: absent / corrupt / recorded for the current state /
-// recorded for an older state. Run 1 with symbolic All and Force, and a
+// recorded for an older state / current plus a stale entry of a removed package. Run 1 with symbolic All and Force, and a
 // generator of p that may fail; then p is symbolically edited (its directory
 // hash changes); run 2 with All and symbolic Force; run 3 with All, no Force,
 // no edit. A package is skipped exactly when Force is off and the hash recorded
@@ -240,7 +247,7 @@ func Verif_C08_History() {
 	cur := map[string]string{pp: "h1:p1", qp: "h1:q1"}
 	// model of what the sum file records (nil: unreadable -> everything changed)
 	var rec map[string]string
-	switch verifsym.IntRange(0, 3) {
+	switch verifsym.IntRange(0, 4) {
 	case 0:
 	case 1:
 		verifsym.FSPut(sumPath, "garbage\n\x00 \n")
@@ -251,6 +258,11 @@ func Verif_C08_History() {
 	case 3:
 		verifsym.FSPut(sumPath, pp+" h1:p0\n")
 		rec = map[string]string{pp: "h1:p0"}
+	case 4:
+		// a longer file than the one a successful run will write: it also records a
+		// package that no longer exists
+		verifsym.FSPut(sumPath, pp+" h1:p1\n"+qp+" h1:q1\nexample.com/m/removed h1:gone\n")
+		rec = map[string]string{pp: "h1:p1", qp: "h1:q1"}
 	}
 	types := []vTypeSpec{{name: "A", tags: vBoth}}
 	build := func() {
